@@ -56,7 +56,7 @@ func keep(d *m.Design) bool {
 func TestViews(t *testing.T) {
 	n := rt.EnvInt("VERIF_CHECKS", 24)
 	seed := rt.EnvInt("VERIF_SEED", 1)
-	sess, built := rt.Prepare(t, "c08", rt.Options{Profile: gen.Views(), N: n, Seed: seed, Keep: keep, Extra: []*m.Design{gen.ViewMatrix()}})
+	sess, built := rt.Prepare(t, "c08", rt.Options{Profile: gen.Views(), N: n, Seed: seed, Keep: keep, Extra: []*m.Design{gen.ViewMatrix(), gen.InheritMatrix()}})
 	defer sess.Close()
 	defer rt.CloseAll(built)
 	if len(built) == 0 {
